@@ -4,7 +4,7 @@ from vlib.checks import _searchcommon as SC
 
 ID = PROP = 'C09'
 LEVEL = 'exploration'
-RULE = ('cases as for C02 (1-best and n-best, both head directions, penalties incl. 0); for every returned tree the score is '
+RULE = ('cases as for C02 (1-best and n-best, head-left, head-right and mixed-head grammars, penalties incl. 0); for every returned tree the score is '
         'recomputed from the tree alone: leaf categories -> tag scores by position, heads from the tree\'s own head flags, dependency '
         'score of every non-head child, root attachment, minus penalty per unary node; exact equality for dyadic score families; '
         'placeholder must carry -inf. distinct = fingerprint of (grammar, matrices, config); non-trivial = the tree has a binary node.')
@@ -19,8 +19,11 @@ def shards(tier, seed):
 
 def gen(rng, spec):
     r = rng.random()
-    if r < 0.4:
+    if r < 0.35:
         return search.gen_case(rng, nbest=rng.choice((2, 3, 5)), max_n=5, sparse=True)
+    if r < 0.55:
+        # different results of one category pair may have different head directions: the score must follow each tree's own flags
+        return search.gen_case(rng, nbest=rng.choice((1, 2, 3)), max_n=5, sparse=rng.random() < 0.5, mixed_heads=True)
     return search.gen_case(rng, max_n=6, head_left=rng.random() < 0.4)
 
 
